@@ -60,7 +60,7 @@ impl AppendTextComment {
                 .map(|content| {
                     if content.is_empty() {
                         "".to_owned()
-                    } else if content.contains('\n') || starts_with_long_bracket(&content) {
+                    } else if content.contains(['\n', '\r']) || starts_with_long_bracket(&content) {
                         let mut equal_count = 0;
 
                         let close_comment = loop {
